@@ -12,7 +12,9 @@ use crate::key_storage::KeyStorageErrorKind;
 use crate::key_storage::KeyStorageResult;
 
 pub(crate) fn expand_secret_jwk(jwk: &Jwk) -> KeyStorageResult<SecretKey> {
-  let params: &JwkParamsOkp = jwk.try_okp_params().unwrap();
+  let params: &JwkParamsOkp = jwk
+    .try_okp_params()
+    .map_err(|err| KeyStorageError::new(KeyStorageErrorKind::UnsupportedKeyType).with_source(err))?;
 
   if params
     .try_ed_curve()
